@@ -134,6 +134,7 @@ package drpcstream
 // ---- exactly one packet of the operation's kind under the write lock.
 
 //@ func (*Stream).Close
+//@   site (*Stream).terminate assert [C07.terminate-under-write-lock] held(s.write.Mutex) && held(s.mu.Mutex)
 //@   modifies s.id, allmem
 //@   props C03 C04 C07 C12
 //@   requires s.wr != nil && s.wr.w != nil
@@ -151,6 +152,7 @@ package drpcstream
 //@   ensures [C03.terminated]   sTerm(s)
 
 //@ func (*Stream).SendError
+//@   site (*Stream).terminate assert [C07.terminate-under-write-lock] held(s.write.Mutex) && held(s.mu.Mutex)
 //@   site (*Signal).Set assert [nonnil-set] arg1 != nil
 //@   modifies s.id, allmem
 //@   props C03 C04 C07 C10
@@ -170,6 +172,7 @@ package drpcstream
 //@   ensures [C03.terminated]   sTerm(s)
 
 //@ func (*Stream).CloseSend
+//@   site (*Stream).terminateIfBothClosed assert [C07.terminate-under-write-lock] held(s.write.Mutex) && held(s.mu.Mutex)
 //@   site (*Signal).Set assert [nonnil-set] arg1 != nil
 //@   modifies s.id, allmem
 //@   props C03 C04 C07 C01
@@ -202,6 +205,7 @@ package drpcstream
 
 // SendCancel never blocks on a lock: both locks are only tried. Busy means nothing was changed.
 //@ func (*Stream).SendCancel
+//@   site (*Stream).terminate assert [C07.terminate-under-write-lock] held(s.write.Mutex) && held(s.mu.Mutex)
 //@   site (*Signal).Set assert [nonnil-set] arg1 != nil
 //@   modifies s.id, allmem
 //@   props C03 C04 C07 C18
